@@ -23,11 +23,15 @@ def main():
     chk = vlib.Check(args.prop, args.tier, args.seed)
     try:
         chk.run_proofs()
+        # overall time budget of the correspondence (a hang of the implementation on the tree under test must end in a
+        # verdict): generous multiples of the normal wall time; VERIF_WATCHDOG overrides (seconds)
+        budget = int(os.environ.get("VERIF_WATCHDOG") or (3000 if args.tier == "quick" else 8 * 3600))
         try:
-            if args.replay:
-                mod.replay(chk, args.replay)
-            else:
-                mod.run(chk)
+            with vlib.time_limit(budget, f"whole correspondence of {args.prop} ({args.tier})"):
+                if args.replay:
+                    mod.replay(chk, args.replay)
+                else:
+                    mod.run(chk)
         except vlib.Infrastructure:
             raise
         except Exception:
